@@ -22,7 +22,8 @@ from ..costlib import Registration, cost_specs
 from ..model import AnalysisError, ClassInfo, FunctionInfo
 from ..numdom import AV, INF, NumError, NumEval, const, join
 from ..sym import NONE, Term, mentions, show, subterms
-from ..util import (SELF, arg, callee, is_call, method_call, paths, returning, short, where)
+from ..util import (SELF, arg, callee, is_call, method_call, paths, resolve_globals, returning,
+                    short, where)
 
 EXPLANATION = ('Abstract interpretation (interval x per-input monotonicity domain, compositional '
                'product/quotient/floor rules, zero-guard lemma, entry-wise check of literal '
@@ -577,7 +578,7 @@ def r16d(ctx, specs):
     for p in returning(paths(repo, lut)):
         asserts = [e.data[0] for e in p.events if e.kind == 'assert']
         a_p, w_p = ('param', lut.params[0]), ('param', lut.params[1])
-        dict_t = [x for x in subterms(p.retval) if x[0] == 'dict']
+        dict_t = [x for x in subterms(resolve_globals(repo, p.retval)) if x[0] == 'dict']
         ok = False
         if dict_t:
             top = dict_t[0]
